@@ -22,7 +22,9 @@ import (
 	"k8s.io/kubernetes/pkg/scheduler/framework"
 
 	"github.com/koordinator-sh/koordinator/apis/extension"
+	pgv1alpha1 "github.com/koordinator-sh/koordinator/apis/thirdparty/scheduler-plugins/pkg/apis/scheduling/v1alpha1"
 	"github.com/koordinator-sh/koordinator/pkg/scheduler/apis/config"
+	"github.com/koordinator-sh/koordinator/pkg/scheduler/frameworkext"
 	"github.com/koordinator-sh/koordinator/pkg/zzverif/mc"
 )
 
@@ -82,6 +84,13 @@ func (h *c04Handle) RejectWaitingPod(uid types.UID) bool {
 	return false
 }
 
+// c04CacheHandle is the gang cache's handle in the PodGroup-CRD configurations: an extended handle without a running
+// scheduler (the cache only uses it for the queue-activation shortcut, which it skips when Scheduler() is nil; with a
+// nil handle onPodGroupAdd takes its "only UT will go here" early return and never links the gang group).
+type c04CacheHandle struct{ frameworkext.ExtendedHandle }
+
+func (c04CacheHandle) Scheduler() frameworkext.Scheduler { return nil }
+
 // ---- configuration ----
 
 type c04GangDef struct {
@@ -95,6 +104,14 @@ type c04Cfg struct {
 	mode   string
 	policy string
 	gangs  []c04GangDef
+	crd    bool // gangs defined by PodGroup objects (pods carry only the pod-group label); PodGroup events join the alphabet
+}
+
+// c04PG: what the informer has delivered about a gang's PodGroup object (CRD configurations)
+type c04PG struct {
+	present bool
+	min     int
+	obj     *pgv1alpha1.PodGroup
 }
 
 type c04PodState int
@@ -134,7 +151,33 @@ type c04Sys struct {
 	h        *c04Handle
 	pods     map[string]*c04Pod
 	everHeld map[string]bool // gang group satisfied once: some member was bound (reference)
+	pgs      map[string]*c04PG
 	last     string
+}
+
+// minOf: the gang's current minimum (the PodGroup's minMember in the CRD configurations)
+func (s *c04Sys) minOf(g c04GangDef) int {
+	if s.cfg.crd {
+		return s.pgs[g.Name].min
+	}
+	return g.Min
+}
+
+// defined: is the gang's definition known to the scheduler (always, when pods carry it; after the PodGroup add otherwise)
+func (s *c04Sys) defined(gang string) bool { return !s.cfg.crd || s.pgs[gang].present }
+
+func (c *c04Cfg) pgObj(g c04GangDef, min int) *pgv1alpha1.PodGroup {
+	groups, _ := json.Marshal(c.groupIDs())
+	return &pgv1alpha1.PodGroup{
+		ObjectMeta: metav1.ObjectMeta{Name: g.Name, Namespace: "ns", UID: types.UID("uid-pg-" + g.Name),
+			CreationTimestamp: metav1.NewTime(time.Unix(1700000000, 0)),
+			Annotations: map[string]string{
+				extension.AnnotationGangMode:        c.mode,
+				extension.AnnotationGangMatchPolicy: c.policy,
+				extension.AnnotationGangGroups:      string(groups),
+			}},
+		Spec: pgv1alpha1.PodGroupSpec{MinMember: int32(min)},
+	}
 }
 
 func (c *c04Cfg) groupIDs() []string {
@@ -170,6 +213,10 @@ func (c *c04Cfg) podObj(p *c04Pod, node string) *corev1.Pod {
 	if node != "" {
 		obj.Status.Phase = corev1.PodRunning
 	}
+	if c.crd {
+		obj.Annotations = map[string]string{}
+		obj.Labels = map[string]string{pgv1alpha1.PodGroupLabel: gd.Name}
+	}
 	return obj
 }
 
@@ -178,9 +225,14 @@ func c04NewSys(cfg *c04Cfg, ops []c04Op) *c04Sys {
 	args := &config.CoschedulingArgs{DefaultTimeout: metav1.Duration{Duration: 600 * time.Second}, DefaultMatchPolicy: extension.GangMatchPolicyOnceSatisfied}
 	// the cache gets a nil handle (its only use is the activation shortcut that needs a running scheduler);
 	// the manager gets the recording handle, exactly what coscheduling.go passes to AllowGangGroup/Unreserve
-	mgr := &PodGroupManager{cache: NewGangCache(args, nil, nil, nil, nil), args: args, handle: h}
-	s := &c04Sys{cfg: cfg, ops: ops, mgr: mgr, h: h, pods: map[string]*c04Pod{}, everHeld: map[string]bool{}}
+	var ch fwktype.Handle
+	if cfg.crd {
+		ch = c04CacheHandle{}
+	}
+	mgr := &PodGroupManager{cache: NewGangCache(args, nil, nil, nil, ch), args: args, handle: h}
+	s := &c04Sys{cfg: cfg, ops: ops, mgr: mgr, h: h, pods: map[string]*c04Pod{}, everHeld: map[string]bool{}, pgs: map[string]*c04PG{}}
 	for _, g := range cfg.gangs {
+		s.pgs[g.Name] = &c04PG{min: g.Min}
 		for _, pn := range g.Pods {
 			s.pods[pn] = &c04Pod{name: pn, gang: g.Name}
 		}
@@ -204,6 +256,9 @@ func (s *c04Sys) holds(st c04PodState) bool {
 // refSatisfied: does every gang of the group have its minimum number of members holding resources now?
 func (s *c04Sys) refSatisfied() (bool, string) {
 	for _, g := range s.cfg.gangs {
+		if !s.defined(g.Name) {
+			return false, fmt.Sprintf("the PodGroup of gang %s has not been delivered yet", g.Name)
+		}
 		n := 0
 		for _, pn := range g.Pods {
 			p := s.pods[pn]
@@ -213,8 +268,8 @@ func (s *c04Sys) refSatisfied() (bool, string) {
 				n++
 			}
 		}
-		if n < g.Min {
-			return false, fmt.Sprintf("gang %s has %d members holding resources, minimum %d", g.Name, n, g.Min)
+		if n < s.minOf(g) {
+			return false, fmt.Sprintf("gang %s has %d members holding resources, minimum %d", g.Name, n, s.minOf(g))
 		}
 	}
 	return true, ""
@@ -338,7 +393,8 @@ func c04BuildOps(cfg *c04Cfg) []c04Op {
 					return nil
 				}},
 			c04Op{name: "scheduler.permit(" + pn + ")",
-				enabled: func(s *c04Sys) bool { return s.pods[pn].st == c04Pending },
+				// (PreFilter fails for a member of a gang that is not initialised: no Reserve/Permit before the PodGroup arrived)
+				enabled: func(s *c04Sys) bool { return s.pods[pn].st == c04Pending && s.defined(s.pods[pn].gang) },
 				apply: func(s *c04Sys, check bool) []mc.Violation {
 					var viol []mc.Violation
 					p := s.pods[pn]
@@ -414,7 +470,7 @@ func c04BuildOps(cfg *c04Cfg) []c04Op {
 					return nil
 				}},
 			c04Op{name: "scheduler.unschedulable(" + pn + ")", // AfterPostFilter: a pending member failed scheduling
-				enabled: func(s *c04Sys) bool { return s.pods[pn].st == c04Pending },
+				enabled: func(s *c04Sys) bool { return s.pods[pn].st == c04Pending && s.defined(s.pods[pn].gang) },
 				apply: func(s *c04Sys, check bool) []mc.Violation {
 					var viol []mc.Violation
 					p := s.pods[pn]
@@ -445,7 +501,44 @@ func c04BuildOps(cfg *c04Cfg) []c04Op {
 				}},
 		)
 	}
+	if cfg.crd {
+		for _, g := range cfg.gangs {
+			g := g
+			ops = append(ops,
+				c04Op{name: "informer.pgAdd(" + g.Name + ")",
+					enabled: func(s *c04Sys) bool { return !s.pgs[g.Name].present },
+					apply: func(s *c04Sys, check bool) []mc.Violation {
+						pg := s.pgs[g.Name]
+						pg.obj = s.cfg.pgObj(g, pg.min)
+						s.mgr.cache.onPodGroupAdd(pg.obj)
+						pg.present = true
+						return nil
+					}},
+				c04Op{name: "informer.pgUpdateMin(" + g.Name + ")", // minMember toggles between the configured value and one more
+					enabled: func(s *c04Sys) bool { return s.pgs[g.Name].present },
+					apply: func(s *c04Sys, check bool) []mc.Violation {
+						pg := s.pgs[g.Name]
+						if pg.min == g.Min {
+							pg.min = g.Min + 1
+						} else {
+							pg.min = g.Min
+						}
+						old := pg.obj
+						pg.obj = s.cfg.pgObj(g, pg.min)
+						s.mgr.cache.onPodGroupUpdate(old, pg.obj)
+						return nil
+					}})
+		}
+	}
 	return ops
+}
+
+func (s *c04Sys) pgString() string {
+	var sb strings.Builder
+	for _, g := range s.cfg.gangs {
+		fmt.Fprintf(&sb, "%s:%v/%d ", g.Name, s.pgs[g.Name].present, s.pgs[g.Name].min)
+	}
+	return sb.String()
 }
 
 func (s *c04Sys) stateString() string {
@@ -545,7 +638,7 @@ func (s *c04Sys) Key() string {
 		wn = append(wn, fmt.Sprintf("%s:%v:%v", n, w.allowed, w.rejected))
 	}
 	sort.Strings(wn)
-	return c04Dumper.Digest(s.mgr.cache.gangItems, s.mgr.cache.gangGroupInfoMap, s.stateString(), strings.Join(wn, ","), fmt.Sprint(s.everHeld["g"]), s.staleString())
+	return c04Dumper.Digest(s.mgr.cache.gangItems, s.mgr.cache.gangGroupInfoMap, s.stateString(), strings.Join(wn, ","), fmt.Sprint(s.everHeld["g"]), s.staleString(), s.pgString())
 }
 
 func (s *c04Sys) staleString() string {
@@ -577,6 +670,21 @@ func c04Configs(env *mc.Env) []*c04Cfg {
 			}
 		}
 	}
+	// gangs defined by PodGroup objects: the PodGroup may arrive before, between or after its pods, minMember changes
+	crdShapes := []string{"2gangs-min2+min1"}
+	if env.Thorough() {
+		crdShapes = append(crdShapes, "1gang-min2-3pods")
+	}
+	for _, sh := range crdShapes {
+		for _, mode := range []string{extension.GangModeStrict, extension.GangModeNonStrict} {
+			for _, pol := range []string{extension.GangMatchPolicyOnlyWaiting, extension.GangMatchPolicyWaitingAndRunning, extension.GangMatchPolicyOnceSatisfied} {
+				if !env.Thorough() && mode == extension.GangModeNonStrict && pol != extension.GangMatchPolicyOnceSatisfied {
+					continue
+				}
+				cfgs = append(cfgs, &c04Cfg{name: "crd|" + sh + "|" + mode + "|" + pol, mode: mode, policy: pol, gangs: shapes[sh], crd: true})
+			}
+		}
+	}
 	return cfgs
 }
 
@@ -593,7 +701,7 @@ func TestVerifC04Hist(t *testing.T) {
 		res.Rule = fmt.Sprintf("BFS over all sequences of the %d-event alphabet (informer pod add / add-bound / update / stale pre-bind update / bound update / delete; scheduler permit, permit timeout, unreserve after reject, bind failure, post-bind, unschedulable member) on the real PodGroupManager+GangCache; the harness plays the framework's waiting-pod map", len(ops))
 		res.Assumptions = []string{
 			"framework contract (trusted base): Permit=Wait puts the pod into the waiting map; Allow releases it to the binding cycle; Reject (or permit timeout, bind failure, deletion while waiting) is followed by Unreserve for that pod; PostBind only after a successful bind; informer events per pod in resourceVersion order, the PreBind patch event may arrive after PostBind",
-			"gangs defined by pod annotations; one gang group per configuration",
+			"gangs defined by pod annotations, or (configurations crd|...) by PodGroup objects whose add event may arrive in any order relative to the pods and whose minMember changes; PodGroup deletion is not in the alphabet; one gang group per configuration",
 		}
 		depth := env.Pick(10, 14)
 		if len(cfg.gangs) == 3 {
